@@ -4,11 +4,23 @@ open Ptk Ptk.Py Ptk.Proto Ptk.C11
 
 def decChar (tok : String) : Option Char := tok.toNat?.map Char.ofNat
 
+def parseFrags : Nat → List String → Option (List (Bool × Text) × List String)
+  | 0, rest => some ([], rest)
+  | n + 1, zw :: t :: rest => do
+    let zw ← decBool zw
+    let t ← decStr t
+    let (fs, r) ← parseFrags n rest
+    pure ((zw, t) :: fs, r)
+  | _, _ => none
+
 mutual
 /-- parse one processor from the token list -/
 partial def parseProc : List String → Option (Proc × List String)
   | "T" :: ts :: c1 :: c2 :: rest => do pure (Proc.tabs (← decNat ts) (← decChar c1) (← decChar c2), rest)
   | "B" :: t :: rest => do pure (Proc.before (← decStr t), rest)
+  | "Z" :: n :: rest => do          -- BeforeInput with zero-width-escape fragments: n x (zw, text)
+    let (fr, r) ← parseFrags (← decNat n) rest
+    pure (Proc.beforeF fr, r)
   | "A" :: t :: rest => do pure (Proc.after (← decStr t), rest)
   | "P" :: c :: rest => do pure (Proc.password (← decChar c), rest)
   | "L" :: c :: rest => do pure (Proc.leading (← decChar c), rest)
